@@ -696,6 +696,11 @@ class PX:
         if k == "as":
             if is_agg(v) and v[3] == e[1]:
                 return v
+            if v[0] == "upd":
+                if v[2] == e:
+                    return v[3]
+                if v[2][0] != "as":
+                    return self.project(st, v[1], e)
             return ("as", v, e[1])
         if v[0] == "upd":
             if v[2] == e:
